@@ -4,6 +4,7 @@
 from __future__ import annotations
 
 import difflib
+import os
 import re
 import typing as T
 from configparser import ConfigParser, MissingSectionHeaderError, ParsingError
@@ -1136,7 +1137,10 @@ def run(options: argparse.Namespace) -> int:
                 src_file = options.source_file_path or Path('STDIN')  # used for error messages and introspection
                 code = sys.stdin.read()
             else:
-                code = src_file.read_text(encoding='utf-8')
+                with src_file.open(encoding='utf-8', newline='') as sf:
+                    raw_code = sf.read()
+                # same translation as reading with universal newlines
+                code = raw_code.replace('\r\n', '\n').replace('\r', '\n')
         except IOError as e:
             raise MesonException(f'Unable to read from {src_file}') from e
 
@@ -1151,7 +1155,13 @@ def run(options: argparse.Namespace) -> int:
             except IOError as e:
                 raise MesonException(f'Unable to write to {src_file}') from e
         elif options.check_only or options.check_diff:
-            if code != formatted:
+            if from_stdin:
+                would_change = code != formatted
+            else:
+                # what --inplace would write, including the configured line endings
+                newline = formatter.current_config.newline or os.linesep
+                would_change = raw_code != formatted.replace('\n', newline)
+            if would_change:
                 err = 1
                 if options.check_diff:
                     diff = difflib.unified_diff(code.splitlines(), formatted.splitlines(),
